@@ -177,7 +177,10 @@ CLAIMED = {
         "from the compressor parameter), not as the incremental buffer machine of comp_write / end_cchunk. Proved in the sixth session: termination of the automatic chunker "
         "(Props/C16Term.lean closeChunks_total / written_back_total, so 'if the calls complete' is discharged) and the zck tool's split-string "
         "scanner (Props/C01Scanner.lean scanner_preserves: for every split string, input and cutting into read blocks the bytes handed to "
-        "zck_write are the input; zck_tool_chunks: the chunks zck closes are the input); the tools' option plumbing and unzck's write loop "
+        "zck_write are the input; zck_tool_chunks: the chunks zck closes are the input) and the tools end to end (Props/C01Tool.lean "
+        "unzckLoop_total: unzck's read loop ends within content-length+1 reads with exactly the content; zck_unzck_roundtrip: zck then unzck "
+        "returns the input for every input, split string, block cutting, legal configuration, buffer size and backend whose decompressor "
+        "inverts its compressor); the tools' option plumbing, file names and the write(2) of unzck's output "
         "are not theorems; codec round trip (decomp (comp x) = x) assumed.",
    technique="Lean 4 proof (accounting invariant over write calls; serialiser/parser round trip by positional decoding; reader loop invariant + termination measure over all read schedules) + differential correspondence incl. re-serialisation identity and real CLI tools"),
  'C03': dict(
